@@ -137,6 +137,165 @@ def closure(F, fn, depth=2, same_class_only=True):
     return out
 
 
+def _field_path(t, root):
+    """Field names from variable `root` down to the designated sub-object, or None if t is not below root."""
+    path = []
+    while t != root:
+        if t[0] == "mem":
+            path.append(t[2])
+            t = t[1]
+        else:
+            return None
+    return tuple(reversed(path))
+
+
+def built_record(F, fn, var=None, _depth=0):
+    """The record a function builds and returns (or, with `var`, the local record `var` as it stands at the end of fn):
+    {field path: value term}. A value ("whole", X) at a path means the whole sub-object there is a copy of X (entries at
+    longer paths override parts of it). Recognised: a local record filled by assignments and returned; a braced
+    initialiser (nested) returned directly; locals used inside a braced initialiser that were themselves built that way.
+    Returns None when the shape is not one of these."""
+    def set_path(built, path, val):
+        for k in [k for k in built if k[:len(path)] == path]:
+            del built[k]
+        built[path] = val
+
+    def from_init(nid, path, built):
+        i = fn.strip(nid)
+        nd = fn.n(i)
+        if nd["k"] == "InitListExpr" and nd.get("rec") and nd["rec"] in F.records:
+            fields = F.records[nd["rec"]]["fields"]
+            ks = fn.kids(i)
+            if len(ks) > len(fields):
+                return False
+            for f, c in zip(fields, ks):
+                if not from_init(c, path + (f["name"],), built):
+                    return False
+            return True
+        t = fn.term(i)
+        if t[0] == "var" and _depth < 3 and is_local_record(t):
+            sub = built_record(F, fn, var=t, _depth=_depth + 1)
+            if sub is None:
+                return False
+            for k in [k for k in built if k[:len(path)] == path]:
+                del built[k]
+            for k, v in sub.items():
+                built[path + k] = v
+            return True
+        set_path(built, path, fn.xterm(i) if t[0] != "var" or not is_record_value(i) else ("whole", t))
+        return True
+
+    def decl_of(v):
+        for nd in fn.nodes:
+            if nd["k"] == "DeclStmt":
+                for d in nd.get("decls", []):
+                    if ("var", d.get("n"), d.get("d")) == v:
+                        return nd, d
+        return None, None
+
+    def is_local_record(v):
+        nd, d = decl_of(v)
+        return d is not None and bool(d.get("rec")) and d["rec"] in F.records and not d.get("is_ref") and F.records[d["rec"]]["qn"].startswith("OP2Utility")
+
+    def is_record_value(i):
+        nd = fn.n(fn.strip(i))
+        return bool(nd.get("rec")) or (nd.get("ct") or "") in F.records
+
+    if var is None:
+        rets = [x for x in fn.nodes if x["k"] == "ReturnStmt" and "value" in x]
+        if len(rets) != 1:
+            return None
+        i = fn.strip(rets[0]["value"])
+        if fn.n(i)["k"] == "InitListExpr":
+            built = {}
+            return built if from_init(i, (), built) else None
+        t = fn.term(i)
+        if t[0] != "var" or not is_local_record(t):
+            return None
+        var = t
+    nd, d = decl_of(var)
+    if d is None:
+        return None
+    built = {}
+    if "init" in d:
+        i0 = fn.strip(d["init"])
+        n0 = fn.n(i0)
+        if n0["k"] == "InitListExpr":
+            if not from_init(i0, (), built):
+                return None
+        elif n0["k"] in ("CXXConstructExpr", "CXXTemporaryObjectExpr") and not n0.get("args"):
+            pass            # default construction: nothing is known yet
+        else:
+            t0 = fn.term(i0)
+            if t0[0] in ("var", "mem", "idx"):
+                built[()] = ("whole", t0)
+            elif t0[0] == "ctor" and not t0[2]:
+                pass
+            else:
+                return None
+    from .rules_stream import is_store
+    for st in fn.nodes:
+        if st["id"] <= nd["id"]:
+            continue
+        if is_store(st) and st.get("op") == "=":
+            ks = fn.kids(st["id"])
+        elif st["k"] == "CXXOperatorCallExpr" and st.get("op") == "=" and len(st.get("args", [])) == 2:
+            ks = st["args"]
+        else:
+            continue
+        path = _field_path(fn.term(ks[0]), var)
+        if path is None or not path:
+            continue
+        rt = fn.term(ks[1])
+        if is_record_value(ks[1]) and rt[0] in ("var", "mem", "idx"):
+            set_path(built, path, ("whole", rt))
+        else:
+            set_path(built, path, fn.xterm(ks[1]))
+    return built
+
+
+def field_value(built, path):
+    """The value built_record recorded for `path` (a member of a wholesale-copied sub-object reads as that member of the source)."""
+    if built is None:
+        return None
+    if path in built:
+        return built[path]
+    for n in range(len(path) - 1, -1, -1):
+        v = built.get(path[:n])
+        if v is not None and v[0] == "whole":
+            t = v[1]
+            for f in path[n:]:
+                t = ("mem", t, f)
+            return t
+    return None
+
+
+def private_closure(F, fn, depth=2):
+    """Keys of fn and of the non-public helpers it calls (transitively) that nothing outside this set calls: the code that
+    runs only as part of fn, however fn has been split up."""
+    from .invariants import callers_map
+    cm = callers_map(F)
+    access = {}
+    for r in F.records.values():
+        for m in r["methods"]:
+            access[m["key"]] = m["access"]
+    keys = {fn.key}
+    changed = True
+    cands = closure(F, fn, depth=depth)[1:]
+    while changed:
+        changed = False
+        for h in cands:
+            if h.key in keys:
+                continue
+            if h.cls and access.get(h.key, h.d.get("access")) == "public":
+                continue
+            callers = cm.get(h.key, set())
+            if callers and all(c in keys for c in callers):
+                keys.add(h.key)
+                changed = True
+    return keys
+
+
 def searches(F, fn):
     """Existential searches over a range in fn, whatever their form. Each: dict(kind, range, elem, pred, node) where
     pred is the predicate's value term over the element variable `elem`:
